@@ -326,4 +326,385 @@ theorem maskBit_entryAt (c : Cache) (t : Tok) (j : Nat) :
   · subst h0; simp
   · simp only [h0, if_false, Option.filter]
 
+/-! ### invariants -/
+
+theorem length_mapFrom (f : Nat → Cell → Cell) (i : Nat) (l : List Cell) : (mapFrom f i l).length = l.length := by
+  induction l generalizing i with
+  | nil => rfl
+  | cons a as ih => simp [mapFrom, ih]
+
+theorem getElem_mapFrom (f : Nat → Cell → Cell) (i : Nat) (l : List Cell) (k : Nat) (hk : k < l.length) :
+    (mapFrom f i l)[k]'(by rw [length_mapFrom]; exact hk) = f (i + k) l[k] := by
+  induction l generalizing i k with
+  | nil => simp at hk
+  | cons a as ih =>
+    cases k with
+    | zero => simp [mapFrom]
+    | succ k =>
+      simp only [mapFrom, List.getElem_cons_succ]
+      rw [ih (i + 1) k (by simpa using hk)]
+      congr 1; omega
+
+structure Inv (c : Cache) : Prop where
+  len : c.cells.length = c.rows.length
+  /-- `ranges_cover`: every cell holding `s` lies inside `cellRanges[s]` -/
+  cover : ∀ j (hj : j < c.cells.length) s, s ∈ c.cells[j].seqs →
+    ∃ r, c.ranges s = some r ∧ r.min ≤ j ∧ j ≤ r.max
+  rmax : ∀ s r, c.ranges s = some r → r.max < c.cells.length ∨ r.max = 0
+  pad : 0 < c.cachePad ∧ c.cells.length % c.cachePad = 0
+
+theorem mem_dropSeq {s seq : Nat} {c : Cell} (h : s ∈ (dropSeq seq c).seqs) : s ∈ c.seqs ∧ s ≠ seq := by
+  simpa [dropSeq] using h
+
+theorem slideSeq_inv (c : Cache) (w : Int) (seq : Nat) (low : Int) (h : Inv c) : Inv (slideSeq c w seq low) := by
+  unfold slideSeq
+  cases hr : c.ranges seq with
+  | none => simpa using h
+  | some old =>
+    simp only
+    refine ⟨by simpa [length_mapFrom] using h.len, ?_, ?_, by simpa [length_mapFrom] using h.pad⟩
+    · intro j hj s hs0
+      have hj' : j < c.cells.length := by simpa [length_mapFrom] using hj
+      have hs : s ∈ (evictCell seq (low - w) old j c.cells[j]).seqs := by
+        have := getElem_mapFrom (evictCell seq (low - w) old) 0 c.cells j hj'
+        simp only [Nat.zero_add] at this
+        rw [← this]; exact hs0
+      have horig : s ∈ c.cells[j].seqs := by
+        unfold evictCell at hs
+        split at hs
+        · exact (mem_dropSeq hs).1
+        · exact hs
+      obtain ⟨r, hr', hmin, hmax⟩ := h.cover j hj' s horig
+      by_cases hseq : s = seq
+      · subst hseq
+        rw [hr] at hr'; cases hr'
+        have hkeep : keepsSeq s (low - w) old j c.cells[j] = true := by
+          unfold evictCell at hs
+          split at hs
+          · exact absurd rfl (mem_dropSeq hs).2
+          · rename_i hne
+            simp only [keepsSeq, decide_eq_true_eq]
+            refine ⟨hmin, hmax, horig, ?_⟩
+            intro hlt
+            exact hne ⟨hmin, hmax, horig, hlt⟩
+        exact ⟨rangeOf (keepsSeq s (low - w) old) c.cells, by simp [setRange], rangeOf_covers _ _ j hj' hkeep⟩
+      · exact ⟨r, by simp [setRange, hseq, hr'], hmin, hmax⟩
+    · intro s r hs
+      simp only [length_mapFrom]
+      simp only [setRange] at hs
+      split at hs
+      · cases hs
+        exact rangeOf_max_lt _ _
+      · exact h.rmax s r hs
+
+theorem foldl_inv {α} (f : Cache → α → Cache) (hf : ∀ c a, Inv c → Inv (f c a)) (l : List α) (c : Cache)
+    (h : Inv c) : Inv (l.foldl f c) := by
+  induction l generalizing c with
+  | nil => exact h
+  | cons a as ih => exact ih _ (hf c a h)
+
+theorem slide_inv (c : Cache) (b : List Tok) (h : Inv c) : Inv (slide c b) := by
+  unfold slide
+  cases c.window with
+  | none => exact h
+  | some w =>
+    apply foldl_inv _ _ _ _ h
+    intro c seq hc
+    cases lowest b seq with
+    | none => exact hc
+    | some low => exact slideSeq_inv c w seq low hc
+
+/-- what placement needs from `defrag`'s data movement: sizes kept, cells only moved or emptied -/
+def CellsMoved (cells' cells : List Cell) : Prop :=
+  cells'.length = cells.length ∧ ∀ x ∈ cells', x.seqs = [] ∨ x ∈ cells
+
+theorem defrag_inv (c : Cache) (h : Inv c)
+    (hm : CellsMoved (defragCore c.v.fixDefrag c.cells c.rows).1 c.cells)
+    (hr : (defragCore c.v.fixDefrag c.cells c.rows).2.length = c.rows.length) : Inv (defrag c) := by
+  unfold defrag
+  simp only
+  obtain ⟨hlen, hsub⟩ := hm
+  refine ⟨?_, ?_, ?_, by simpa [hlen] using h.pad⟩
+  · simp only [hlen]
+    split
+    · rw [hr]; exact h.len
+    · exact h.len
+  · intro j hj s hs0
+    have hj' : j < (defragCore c.v.fixDefrag c.cells c.rows).1.length := hj
+    have hs : s ∈ ((defragCore c.v.fixDefrag c.cells c.rows).1[j]).seqs := hs0
+    have hx := hsub _ (List.getElem_mem hj')
+    rcases hx with hx | hx
+    · rw [hx] at hs; simp at hs
+    · obtain ⟨k, hk, hk'⟩ := List.getElem_of_mem hx
+      have hs2 : s ∈ c.cells[k].seqs := by rw [hk']; exact hs
+      obtain ⟨r, hr', _⟩ := h.cover k hk s hs2
+      refine ⟨rangeOf (hasSeq s) (defragCore c.v.fixDefrag c.cells c.rows).1, by simp [hr'], ?_⟩
+      exact rangeOf_covers _ _ j hj' (by simpa [hasSeq] using hs)
+  · intro s r hs
+    cases ho : c.ranges s with
+    | none => simp [ho] at hs
+    | some r0 =>
+      simp only [ho, Option.map_some, Option.some.injEq] at hs
+      subst hs
+      exact rangeOf_max_lt _ _
+
+/-! ### placement -/
+
+/-- the current range contains the range of every sequence in `S`, and ends inside the cache -/
+structure CurOK (c : Cache) (S : List Tok) : Prop where
+  sub : ∀ t ∈ S, ∃ r, c.ranges t.seq = some r ∧ c.curRange.min ≤ r.min ∧ r.max ≤ c.curRange.max
+  cmax : c.curRange.max < c.cells.length ∨ c.curRange.max = 0
+
+theorem placeTok_inv (c : Cache) (idx : Nat) (t : Tok) (h : Inv c) (hidx : idx < c.cells.length) :
+    Inv (placeTok c idx t) := by
+  unfold placeTok
+  refine ⟨by simpa using h.len, ?_, ?_, by simpa using h.pad⟩
+  · intro j hj s hs0
+    have hj' : j < c.cells.length := by simpa using hj
+    have hs : s ∈ ((c.cells.set idx ⟨t.pos, [t.seq]⟩)[j]'(by simpa using hj')).seqs := hs0
+    rw [List.getElem_set] at hs
+    by_cases hji : idx = j
+    · subst hji
+      simp only [if_true, List.mem_singleton] at hs
+      subst hs
+      refine ⟨((c.ranges t.seq).getD Range.new).add idx, by simp [setRange], ?_⟩
+      exact ⟨(Range.add_min_le _ _).2, (Range.add_max_ge _ _).2⟩
+    · simp only [hji, if_false] at hs
+      obtain ⟨r, hr, hmin, hmax⟩ := h.cover j hj' s hs
+      by_cases hseq : s = t.seq
+      · subst hseq
+        refine ⟨((c.ranges t.seq).getD Range.new).add idx, by simp [setRange], ?_⟩
+        simp only [hr, Option.getD_some]
+        have h1 := Range.add_min_le r idx
+        have h2 := Range.add_max_ge r idx
+        omega
+      · exact ⟨r, by simp [setRange, hseq, hr], hmin, hmax⟩
+  · intro s r hs
+    simp only [List.length_set]
+    simp only [setRange] at hs
+    split at hs
+    · cases hs
+      have := Range.add_max_le ((c.ranges t.seq).getD Range.new) idx
+      cases hr : c.ranges t.seq with
+      | none => simp only [hr, Option.getD_none, Range.new] at this ⊢; omega
+      | some r0 =>
+        simp only [hr, Option.getD_some] at this ⊢
+        have := h.rmax _ _ hr
+        omega
+    · exact h.rmax s r hs
+
+theorem placeTok_cur (c : Cache) (idx : Nat) (t : Tok) (S : List Tok) (h : Inv c) (hc : CurOK c S)
+    (hidx : idx < c.cells.length) : CurOK (placeTok c idx t) (t :: S) := by
+  have hrm : ∀ r, c.ranges t.seq = some r → r.max < c.cells.length ∨ r.max = 0 := fun r hr => h.rmax _ _ hr
+  unfold placeTok
+  constructor
+  · intro u hu
+    simp only
+    by_cases hseq : u.seq = t.seq
+    · refine ⟨((c.ranges t.seq).getD Range.new).add idx, by simp [setRange, hseq], ?_⟩
+      constructor <;> split <;> omega
+    · have hu' : u ∈ S := by
+        rcases List.mem_cons.mp hu with rfl | hu'
+        · exact absurd rfl hseq
+        · exact hu'
+      obtain ⟨r, hr, hmin, hmax⟩ := hc.sub u hu'
+      refine ⟨r, by simp [setRange, hseq, hr], ?_⟩
+      constructor <;> split <;> omega
+  · simp only [List.length_set]
+    have := Range.add_max_le ((c.ranges t.seq).getD Range.new) idx
+    have hcm := hc.cmax
+    split
+    · cases hr : c.ranges t.seq with
+      | none => simp only [hr, Option.getD_none, Range.new] at this ⊢; omega
+      | some r0 =>
+        simp only [hr, Option.getD_some] at this ⊢
+        have := hrm _ hr
+        omega
+    · exact hcm
+
+theorem place_length (c : Cache) (idx : Nat) (toks : List Tok) : (place c idx toks).cells.length = c.cells.length := by
+  induction toks generalizing c idx with
+  | nil => rfl
+  | cons t ts ih => simp [place, ih, placeTok]
+
+theorem place_pad (c : Cache) (idx : Nat) (toks : List Tok) : (place c idx toks).cachePad = c.cachePad := by
+  induction toks generalizing c idx with
+  | nil => rfl
+  | cons t ts ih => simp [place, ih, placeTok]
+
+theorem place_inv (c : Cache) (idx : Nat) (toks S : List Tok) (h : Inv c) (hc : CurOK c S)
+    (hfit : idx + toks.length ≤ c.cells.length) :
+    Inv (place c idx toks) ∧ ∀ t, (t ∈ toks ∨ t ∈ S) →
+      ∃ r, (place c idx toks).ranges t.seq = some r ∧ (place c idx toks).curRange.min ≤ r.min ∧ r.max ≤ (place c idx toks).curRange.max := by
+  induction toks generalizing c idx S with
+  | nil =>
+    refine ⟨h, ?_⟩
+    intro t ht
+    rcases ht with ht | ht
+    · simp at ht
+    · exact hc.sub t ht
+  | cons t ts ih =>
+    simp only [List.length_cons] at hfit
+    have hidx : idx < c.cells.length := by omega
+    have h1 := placeTok_inv c idx t h hidx
+    have h2 := placeTok_cur c idx t S h hc hidx
+    have hl : (placeTok c idx t).cells.length = c.cells.length := by simp [placeTok]
+    obtain ⟨hi, hcov⟩ := ih (placeTok c idx t) (idx + 1) (t :: S) h1 h2 (by rw [hl]; omega)
+    refine ⟨hi, ?_⟩
+    intro u hu
+    apply hcov
+    rcases hu with hu | hu
+    · rcases List.mem_cons.mp hu with rfl | hu'
+      · exact Or.inr (by simp)
+      · exact Or.inl hu'
+    · exact Or.inr (by simp [hu])
+
+theorem place_cmax (c : Cache) (idx : Nat) (toks S : List Tok) (h : Inv c) (hc : CurOK c S)
+    (hfit : idx + toks.length ≤ c.cells.length) :
+    (place c idx toks).curRange.max < c.cells.length ∨ (place c idx toks).curRange.max = 0 := by
+  induction toks generalizing c idx S with
+  | nil => exact hc.cmax
+  | cons t ts ih =>
+    simp only [List.length_cons] at hfit
+    have hidx : idx < c.cells.length := by omega
+    have h1 := placeTok_inv c idx t h hidx
+    have h2 := placeTok_cur c idx t S h hc hidx
+    have hl : (placeTok c idx t).cells.length = c.cells.length := by simp [placeTok]
+    have := ih (placeTok c idx t) (idx + 1) (t :: S) h1 h2 (by rw [hl]; omega)
+    rw [hl] at this
+    exact this
+
+theorem roundUp_ge (m pad : Nat) (hp : 0 < pad) : m ≤ roundUp m pad := by
+  unfold roundUp
+  have h1 := Nat.div_add_mod (m + pad - 1) pad
+  have h2 := Nat.mod_lt (m + pad - 1) hp
+  rw [Nat.mul_comm] at h1
+  omega
+
+theorem roundUp_le (m pad n : Nat) (hp : 0 < pad) (hn : n % pad = 0) (hm : m ≤ n) : roundUp m pad ≤ n := by
+  unfold roundUp
+  obtain ⟨q, hq⟩ : ∃ q, n = q * pad := ⟨n / pad, by have := Nat.div_add_mod n pad; rw [hn, Nat.mul_comm] at this; omega⟩
+  subst hq
+  apply Nat.mul_le_mul_right
+  apply Nat.le_of_lt_succ
+  rw [Nat.div_lt_iff_lt_mul hp, Nat.succ_mul]
+  omega
+
+theorem roundDown_le (m pad : Nat) : roundDown m pad ≤ m := Nat.div_mul_le_self m pad
+
+theorem findStartFrom_fits (k : Nat) (cells : List Cell) (i start count s : Nat)
+    (h : findStartFrom k cells i start count = some s) (hinv : start + count = i) :
+    s + k ≤ i + cells.length ∧ 0 < cells.length := by
+  induction cells generalizing i start count with
+  | nil => simp [findStartFrom] at h
+  | cons c cs ih =>
+    unfold findStartFrom at h
+    simp only [List.length_cons]
+    split at h
+    · split at h
+      · cases h; omega
+      · have := ih (i + 1) start (count + 1) h (by omega); omega
+    · have := ih (i + 1) (i + 1) 0 h (by omega); omega
+
+/-! ### defrag only moves cells -/
+
+theorem getD_mem_or {α} (l : List α) (i : Nat) (d : α) : l.getD i d = d ∨ l.getD i d ∈ l := by
+  by_cases h : i < l.length
+  · right; simp [List.getD_eq_getElem?_getD, List.getElem?_eq_getElem h]
+  · left; simp [List.getD_eq_getElem?_getD, List.getElem?_eq_none (by omega : l.length ≤ i)]
+
+theorem length_moveRowsFrom (old : List Row) (src dst len i : Nat) (rows : List Row) :
+    (moveRowsFrom old src dst len i rows).length = rows.length := by
+  induction rows generalizing i with
+  | nil => rfl
+  | cons r rs ih => simp [moveRowsFrom, ih]
+
+theorem length_moveRows (rows : List Row) (src dst len : Nat) : (moveRows rows src dst len).length = rows.length :=
+  length_moveRowsFrom _ _ _ _ _ _
+
+theorem mem_mapFrom {f : Nat → Cell → Cell} {i : Nat} {l : List Cell} {x : Cell} (h : x ∈ mapFrom f i l) :
+    ∃ k c, c ∈ l ∧ x = f k c := by
+  induction l generalizing i with
+  | nil => simp [mapFrom] at h
+  | cons a as ih =>
+    simp only [mapFrom, List.mem_cons] at h
+    rcases h with h | h
+    · exact ⟨i, a, by simp, h⟩
+    · obtain ⟨k, c, hc, hx⟩ := ih h
+      exact ⟨k, c, by simp [hc], hx⟩
+
+/-- loop invariant of `defrag`: sizes are kept and every cell is an original cell or unowned -/
+structure DInv (cells : List Cell) (rows : List Row) (st : DS) : Prop where
+  clen : st.cells.length = cells.length
+  rlen : st.rows.length = rows.length
+  sub : ∀ x ∈ st.cells, x.seqs = [] ∨ x ∈ cells
+
+theorem sub_set {cells l : List Cell} (h : ∀ x ∈ l, x.seqs = [] ∨ x ∈ cells) (i : Nat) (a : Cell)
+    (ha : a.seqs = [] ∨ a ∈ cells) : ∀ x ∈ l.set i a, x.seqs = [] ∨ x ∈ cells := by
+  intro x hx
+  rcases List.mem_or_eq_of_mem_set hx with hx | hx
+  · exact h x hx
+  · rw [hx]; exact ha
+
+theorem sub_getD {cells l : List Cell} (h : ∀ x ∈ l, x.seqs = [] ∨ x ∈ cells) (i : Nat) :
+    (l.getD i Cell.empty).seqs = [] ∨ l.getD i Cell.empty ∈ cells := by
+  rcases getD_mem_or l i Cell.empty with hx | hx
+  · left; rw [hx]; rfl
+  · exact h _ hx
+
+theorem fillHole_dinv (fix : Bool) (cells : List Cell) (rows : List Row) (st : DS) (dst s : Nat)
+    (h : DInv cells rows st) : DInv cells rows (fillHole fix st dst s) := by
+  have hsub2 : ∀ x ∈ (st.cells.set dst (st.cells.getD s Cell.empty)).set s Cell.empty, x.seqs = [] ∨ x ∈ cells :=
+    sub_set (sub_set h.sub dst _ (sub_getD h.sub s)) s _ (Or.inl rfl)
+  have hrot : ∀ pDst, ∀ x ∈ rotateIn ((st.cells.set dst (st.cells.getD s Cell.empty)).set s Cell.empty) pDst dst,
+      x.seqs = [] ∨ x ∈ cells := by
+    intro pDst x hx
+    unfold rotateIn at hx
+    obtain ⟨k, c, hc, hxe⟩ := mem_mapFrom hx
+    subst hxe
+    split
+    · exact sub_getD hsub2 dst
+    · split
+      · rcases getD_mem_or ((st.cells.set dst (st.cells.getD s Cell.empty)).set s Cell.empty) (k - 1) c with hx | hx
+        · rw [hx]; exact hsub2 c hc
+        · exact hsub2 _ hx
+      · exact hsub2 c hc
+  unfold fillHole
+  simp only
+  split
+  · split
+    · split
+      · exact ⟨by simp [rotateIn, length_mapFrom, h.clen], h.rlen, hrot _⟩
+      · exact ⟨by simp [h.clen], by simp [length_moveRows, h.rlen], hsub2⟩
+    · split
+      · exact ⟨by simp [h.clen], h.rlen, hsub2⟩
+      · exact ⟨by simp [h.clen], by simp [length_moveRows, h.rlen], hsub2⟩
+  · exact ⟨by simp [h.clen], h.rlen, hsub2⟩
+
+theorem defragLoop_dinv (fix : Bool) (cells : List Cell) (rows : List Row) (fuel : Nat) (st : DS) (dst src : Nat)
+    (h : DInv cells rows st) : DInv cells rows (defragLoop fix fuel st dst src) := by
+  induction fuel generalizing st dst src with
+  | zero => exact h
+  | succ f ih =>
+    unfold defragLoop
+    split
+    · split
+      · simp only
+        split
+        · exact ih _ _ _ (fillHole_dinv fix cells rows st dst _ h)
+        · exact ih _ _ _ h
+      · exact ih _ _ _ h
+    · exact h
+
+theorem defragCore_moved (fix : Bool) (cells : List Cell) (rows : List Row) :
+    CellsMoved (defragCore fix cells rows).1 cells ∧ (defragCore fix cells rows).2.length = rows.length := by
+  have h := defragLoop_dinv fix cells rows cells.length ⟨cells, rows, 0, 0, 0⟩ 0 (cells.length - 1)
+    ⟨rfl, rfl, fun x hx => Or.inr hx⟩
+  unfold defragCore
+  simp only
+  refine ⟨⟨h.clen, h.sub⟩, ?_⟩
+  split
+  · rw [length_moveRows]; exact h.rlen
+  · exact h.rlen
+
 end OllamaVerif.Causal
